@@ -65,6 +65,13 @@ func TestVerifBoundedSaveLoad(t *testing.T) {
 		{"func vari(a, ..) { len(..) + a }", "vari", []string{"1", "1,2,3"}},
 		{"func mapf(k) { m = {\"a\": [1,2], \"b\": {\"c\": 3}}; m[k] }", "mapf", []string{"\"a\"", "\"b\""}},
 		{"func cmpf(a, b) { if a < b && !(a == b) || a >= 10 { -a } else { b % 3 } }", "cmpf", []string{"1,2", "12,3", "5,5"}},
+		// two functions with the same parameters and body under different names, an alias, empty stubs, an open ended range
+		{"func double(x) { x * 2 }", "double", []string{"4"}},
+		{"func twice(x) { x * 2 }", "twice", []string{"5"}},
+		{"func on_start() { }", "on_start", []string{""}},
+		{"func on_stop() { }", "on_stop", []string{""}},
+		{"func tailf(a) { a[1:] + a[0:1] }", "tailf", []string{"[1,2,3]", "\"abc\""}},
+		{"func pick(a, b, c) { a + (b | c) - (a - b) }", "pick", []string{"1,2,4", "7,1,1"}},
 	}
 	_ = extensions.Init(nil) // type(), nil, ... (an already initialised package reports an error: ignored)
 	evals, fails := 0, 0
